@@ -44,6 +44,38 @@ var memBefore, memAfter runtime.MemStats
 // the input was rejected); the test keeps such packets and re-inspects them.
 var lastC05Packet mq.ControlPacket
 
+// c05Base is the intact frame the last generated frame was derived from by
+// inflating one inner length field (nil otherwise).
+var c05Base []byte
+
+// inflationCost is the metamorphic relation for inflated inner length
+// fields: a frame that only differs from an intact one in a length field that
+// now points far beyond the data must not make the decoder allocate more than
+// the intact frame plus a small allowance - the declared length of a string
+// is not a reason to allocate before the bytes are there. Comparing with the
+// intact frame (instead of a constant) leaves room for any fixed per-call
+// overhead an implementation may have.
+func inflationCost(base, damaged []byte) (sig, msg string) {
+	allocOf := func(f []byte) uint64 {
+		best := ^uint64(0)
+		var a, b runtime.MemStats
+		for i := 0; i < 3; i++ {
+			runtime.ReadMemStats(&a)
+			_, _ = mqRead(f)
+			runtime.ReadMemStats(&b)
+			if d := b.TotalAlloc - a.TotalAlloc; d < best {
+				best = d
+			}
+		}
+		return best
+	}
+	intact, hurt := allocOf(base), allocOf(damaged)
+	if allow := intact + 16<<10 + 64*uint64(len(damaged)); hurt > allow {
+		return "alloc-follows-inflated-length", fmt.Sprintf("ReadPacket allocates %d bytes for the intact frame (%d bytes long) and %d bytes for the same frame with one inner length field raised beyond the data (limit %d): memory follows a declared length, not the bytes that arrived\nintact  %s\ndamaged %s", intact, len(base), hurt, allow, hx(base), hx(damaged))
+	}
+	return "", ""
+}
+
 func checkC05(entry string, frame []byte) (accepted bool, sig, msg string) {
 	lastC05Packet = nil
 	size := declaredSize(frame)
@@ -160,6 +192,7 @@ func genRepeatedSection(t *rapid.T) (frame []byte, class string, nontrivial bool
 		if fb, _, b2, ok := ref.Split(g); ok {
 			g = ref.Reframe(fb, b2)
 		}
+		c05Base = f
 		return g, class + "/inflated-inner-length", true
 	case 0: // intact
 		return f, class + "/intact", nontrivial
@@ -255,8 +288,15 @@ func TestC05(t *testing.T) {
 			recent.add(frame, entry, lastC05Packet)
 		}
 	}
-	r.Rapid(t, "repeated-sections", vf.N(6000, 1500000), func(t *rapid.T) {
+	r.Rapid(t, "repeated-sections", vf.N(12000, 1500000), func(t *rapid.T) {
+		c05Base = nil
 		frame, class, nt := genRepeatedSection(t)
+		if base := c05Base; base != nil && len(frame) < 1<<16 {
+			if sig, msg := inflationCost(base, frame); msg != "" {
+				r.Fail("decode", caseFrame{Frame: frame, Entry: "ReadPacket", Note: class, Base: base}, sig, "%s", msg)
+				t.Fatalf("%s", msg)
+			}
+		}
 		for _, entry := range entriesFor(t, frame) {
 			_, sig, msg := checkC05(entry, frame)
 			r.Case(vf.FPs(entry, string(frame)), nt, class, func() interface{} {
@@ -269,7 +309,7 @@ func TestC05(t *testing.T) {
 			sentinelCheck(t, frame, entry)
 		}
 	})
-	r.Rapid(t, "hostile", vf.N(4000, 1000000), func(t *rapid.T) {
+	r.Rapid(t, "hostile", vf.N(8000, 1000000), func(t *rapid.T) {
 		frame, kind := genHostileFrame(t)
 		for _, entry := range entriesFor(t, frame) {
 			_, sig, msg := checkC05(entry, frame)
